@@ -10,7 +10,7 @@ os.close(fd)
 try:
     subprocess.run(["/venv/bin/python", "-m", "pytest", "-q", "-p", "no:cacheprovider", "--timeout=900",
                     "--continue-on-collection-errors", f"--junitxml={path}"],
-                   cwd="/repo", env=env, stdout=subprocess.DEVNULL, stderr=subprocess.DEVNULL, check=False)
+                   cwd=os.environ.get("XKNX_REPO", "/repo"), env=env, stdout=subprocess.DEVNULL, stderr=subprocess.DEVNULL, check=False)
     passed = set()
     for tc in ET.parse(path).getroot().iter("testcase"):
         if not any(ch.tag in ("failure", "error", "skipped") for ch in tc):
